@@ -16,7 +16,7 @@ func (g *G) stmt() Tri {
 		return printCall(same(`"~"`))
 	}
 	for tries := 0; tries < 3; tries++ {
-		switch g.n(0, 21, "stmt") {
+		switch g.n(0, 23, "stmt") {
 		case 0, 1:
 			return g.stDecl()
 		case 2, 3:
@@ -85,6 +85,12 @@ func (g *G) stmt() Tri {
 			if g.allow("strconv") {
 				return g.stBytes()
 			}
+		case 22:
+			if g.allow("iface") {
+				return g.stTypeSwitch()
+			}
+		case 23:
+			return g.stSliceSpread()
 		}
 	}
 	return g.stAssign()
